@@ -181,6 +181,11 @@ func ScriptGen(o ScriptOpts) *rapid.Generator[Script] {
 					continue
 				}
 				op.Items = []Item{o.Item.Draw(t, "item")}
+				if extra := rapid.IntRange(0, 5).Draw(t, "extra-adds") - 2; extra > 0 {
+					for e := 0; e < extra; e++ {
+						op.Items = append(op.Items, o.Item.Draw(t, "item"))
+					}
+				}
 			case "addrow":
 				var pend []int
 				for j, r := range rows {
